@@ -63,7 +63,9 @@ Definition step (s : st) (line : str) : st :=
                 | Some n => ((match cur_rows s with Some ((_ :: _) as a) => put (cur_name s) (Some a) (sheets s) | _ => sheets s end), Some n, Some [])
                 | None => (sheets s, cur_name s, cur_rows s)
                 end in
-              let rows2 := match name1, rows1 with Some _, Some a => if any_some rw then Some (a ++ [rw]) else rows1 | _, _ => rows1 end in
+              (* a blank row is kept below the header row of a sheet (first cell empty, rows already present): row numbers stay those of the table *)
+              let blank_kept := match first, rows1 with None, Some (_ :: _) => true | _, _ => false end in
+              let rows2 := match name1, rows1 with Some _, Some a => if any_some rw || blank_kept then Some (a ++ [rw]) else rows1 | _, _ => rows1 end in
               {| sheets := put name1 rows2 sheets1; cur_name := name1; cur_rows := rows2 |}
           end
     end.
